@@ -24,9 +24,11 @@ Contexts == <<
 
 (* code points t is built from; the last group only in the backslash form *)
 Alphabet == <<97, 32, 42, 95, 96, 91, 93, 40, 41, 60, 62, 38, 34, 39, 92, 35, 33, 124, 126, 45, 58, 59, 61, 36,
-              233, 160, 8203, 171, 8212, 12288, 65279, 9, 1, 127>>
-BackslashOnly == {1, 127}
-Core == 1..20
+              233, 160, 8203, 171, 8212, 12288, 65279, 9, 1, 127, 12, 8232, 133, 28>>
+BackslashOnly == {1, 127, 28, 133}
+(* form feed, LINE SEPARATOR, NEL, FS: ordinary characters of the text for Markdown (general-purpose line
+   splitting treats them as line ends); FF and LS are also explored at depth three, i.e. in the interior of t *)
+Core == (1..20) \cup {35, 36}
 
 Named == << <<38, "amp">>, <<60, "lt">>, <<62, "gt">>, <<34, "quot">>, <<42, "ast">>, <<95, "lowbar">>,
             <<91, "lsqb">>, <<93, "rsqb">>, <<96, "grave">>, <<92, "bsol">>, <<160, "nbsp">>, <<233, "eacute">>,
